@@ -1,6 +1,8 @@
 import Driver.Util
 import Sqfs.Spec.BlockWriter
 import Sqfs.Model.ToyCodec
+import Sqfs.Model.C08Stream
+import Sqfs.Spec.FragDedup
 /-!
 `sqfsmodel c08` — line protocol (one result line per input line).
 
@@ -19,8 +21,28 @@ seen so far, i.e. the checksums the *implementation's* worker computed)
 * `fd-finish`                                             → `ok`
 * `fd-block <index-dec>`                                  → `block <datahex> <open|flight|written>` | `none`
 * `fd-read <index-dec>`                                   → `read <datahex>` | `none`   (what a reader gets)
-Monitor (stateless; evaluates the specification on bytes the *implementation* produced)
+Monitor (evaluates the specification on what the *implementation* produced)
 * `mon-slice <filehex> <loc-dec> <payloadhex>`          → `1` | `0`
+* `mon-init` → `ok`; `mon-call <chk-hex> <flags-hex> <datahex> <loc-dec>` → `ok` (collects the implementation's calls and the
+  locations it returned); then
+  `mon-eval <filehex>` → `mon <wf> <wfS> <readbackOk> <holdsAll> <fragBlocksOk> <shareCompleteOk>` (0/1 each: the Lean
+  predicates of `Spec/BlockWriter.lean` on the implementation's call stream, locations and final file)
+Call stream of the block processor (state = `Sqfs.C08Stream.State`; checksum function and, for real codecs, the
+compressor are tables of what the *implementation's* workers computed)
+* `st-init <blocksize-dec> <toy|table> <prehex>`          → `ok`
+* `st-hash <datahex> <chk-hex>`                            → `ok` | `err h-not-a-function`
+* `st-cmp <inhex> <outhex>`                                → `ok`   (table codec: `do_block` compressed in → out)
+* `st-file <uflags-hex> <datahex>`                         → `blocks <n>`
+* `st-submit`                                              → `S <flags-hex> <datahex>` (the block before the worker ran)
+* `st-dequeue`        → `D <flags-hex> <chk-hex> <datahex> ` followed by `frag sparse` | `frag loc <i> <o>` |
+                        `frag loc <i> <o> close <idx> <seq>` | `num <seq>` | `fb <seq>`
+* `st-complete`                                            → `W <chk-hex8> <flags-hex4> <datahex> ok <loc> <filesize> <nblocks>`
+* `st-finish`                                              → `FIN none` | `FIN close <idx> <seq>`
+* `st-tbl`                                                 → `tbl <start>:<sizeword-hex>,…` | `tbl -`
+* `st-bytes`                                               → `file <hex>`
+* `st-check`   → `check <wfS> <holdsAll> <fragBlocksOk> <link> <fragSound>`: the Lean predicates on the model's own state
+                 (`link`: `fileReadBlock = readBlock` for every written fragment block)
+  errors: `err bad-event` | `err frag <kind>` | `err writer <kind>` | `err internal`
 -/
 namespace Driver.C08
 open Sqfs.BlockWriter
@@ -40,6 +62,12 @@ structure St where
   byteCompare : Bool := true
   maxBlock : Nat := 0
   htab : List (Bytes × UInt32) := []
+  mcalls : List Call := []
+  mlocs : List Nat := []
+  stm : Sqfs.C08Stream.State := Sqfs.C08Stream.init 0 []
+  stToy : Bool := true
+  stHash : List (Bytes × UInt32) := []
+  stCmp : List (Bytes × Bytes) := []
 
 def showFdErr : Sqfs.FragDedup.Err → String
   | .corrupted => "err corrupted"
@@ -56,8 +84,97 @@ def showErr : Err → String
   | .outOfBounds => "err oob"
   | .internal => "err internal"
 
+def hexPad (n width : Nat) : String :=
+  let ds := (Nat.toDigits 16 n)
+  String.ofList (List.replicate (width - ds.length) '0' ++ ds)
+
+def b2s (b : Bool) : String := if b then "1" else "0"
+
+def stCodec (st : St) : Sqfs.FragDedup.Codec :=
+  if st.stToy then Sqfs.ToyCodec.codec st.stm.B
+  else { cmp := fun x => st.stCmp.lookup x, unc := fun y => (st.stCmp.find? (fun p => p.2 == y)).map (·.1) }
+
+def stH (st : St) : Bytes → UInt32 := fun x => (st.stHash.lookup x).getD 0
+
+def showStErr : Sqfs.C08Stream.Err → String
+  | .unsupported => "err unsupported"
+  | .badEvent => "err bad-event"
+  | .frag e => "err frag " ++ (showFdErr e).drop 4
+  | .writer e => "err writer " ++ (showErr e).drop 4
+  | .internal => "err internal"
+
+def showBlk (b : Sqfs.C08Stream.Blk) : String :=
+  s!"{hexPad b.flags 1} {hexPad b.chk.toNat 8} {toHexTok b.data}"
+
+def showOut : Sqfs.C08Stream.Out → String
+  | .blocks n => s!"blocks {n}"
+  | .submitted b => s!"S {hexPad b.flags 1} {toHexTok b.data}"
+  | .fragment b .sparse _ => s!"D {showBlk b} frag sparse"
+  | .fragment b (.loc i o) none => s!"D {showBlk b} frag loc {i} {o}"
+  | .fragment b (.loc i o) (some (k, q)) => s!"D {showBlk b} frag loc {i} {o} close {k} {q}"
+  | .numbered b => s!"D {showBlk b} num {b.seq}"
+  | .fragBlock b => s!"D {showBlk b} fb {b.seq}"
+  | .written c loc sz nb => s!"W {hexPad c.chk.toNat 8} {hexPad c.flags 4} {toHexTok c.data} ok {loc} {sz} {nb}"
+  | .finished none => "FIN none"
+  | .finished (some (k, q)) => s!"FIN close {k} {q}"
+
+def stEv (st : St) (e : Sqfs.C08Stream.Ev) : St × String :=
+  match Sqfs.C08Stream.step (stCodec st) (stH st) st.stm e with
+  | .ok (s', o) => ({ st with stm := s' }, showOut o)
+  | .error e => (st, showStErr e)
+
 def step (st : St) (line : String) : St × String :=
   match words line with
+  | ["st-init", bs, codec, pre] =>
+    match bs.toNat?, fromHex pre with
+    | some b, some p => ({ st with stm := Sqfs.C08Stream.init b p, stToy := codec == "toy", stHash := [], stCmp := [] }, "ok")
+    | _, _ => (st, "bad-op")
+  | ["st-hash", data, chk] =>
+    match fromHex data, hexNat chk with
+    | some d, some c =>
+      match st.stHash.lookup d with
+      | some c' => if c' != UInt32.ofNat c then (st, "err h-not-a-function") else (st, "ok")
+      | none => ({ st with stHash := (d, UInt32.ofNat c) :: st.stHash }, "ok")
+    | _, _ => (st, "bad-op")
+  | ["st-cmp", a, b] =>
+    match fromHex a, fromHex b with
+    | some x, some y => ({ st with stCmp := (x, y) :: st.stCmp }, "ok")
+    | _, _ => (st, "bad-op")
+  | ["st-file", fl, data] =>
+    match hexNat fl, fromHex data with
+    | some f, some d => stEv st (.file f d)
+    | _, _ => (st, "bad-op")
+  | ["st-submit"] => stEv st .submit
+  | ["st-dequeue"] => stEv st .dequeue
+  | ["st-complete"] => stEv st .complete
+  | ["st-finish"] => stEv st .finish
+  | ["st-tbl"] =>
+    (st, "tbl " ++ (if st.stm.fragTbl.isEmpty then "-" else
+      ",".intercalate (st.stm.fragTbl.map (fun p => s!"{p.1}:{hexPad p.2 1}"))))
+  | ["st-bytes"] => (st, "file " ++ toHexTok st.stm.bw.file)
+  | ["st-check"] =>
+    let s := st.stm
+    let codec := stCodec st
+    let link := (List.range s.fd.blocks.length).all (fun i =>
+      match s.fd.blocks[i]? with
+      | some ⟨_, .written _ _, _⟩ => Sqfs.C08Stream.fileReadBlock codec s i == Sqfs.FragDedup.readBlock codec s.fd i
+      | _ => true)
+    (st, s!"check {b2s (wfS false s.calls)} {b2s (holdsAll s.bw.file (claimsOf false [] s.calls) s.locs)} " ++
+         s!"{b2s (fragBlocksOk s.bw.file s.calls s.locs)} {b2s link} {b2s (Sqfs.FragDedup.fragSoundOk codec s.fd s.fevs s.fres)}")
+  | ["mon-init"] => ({ st with mcalls := [], mlocs := [] }, "ok")
+  | ["mon-call", chk, flags, data, loc] =>
+    match hexNat chk, hexNat flags, fromHex data, loc.toNat? with
+    | some c, some f, some d, some l =>
+      ({ st with mcalls := st.mcalls ++ [⟨UInt32.ofNat c, f, d⟩], mlocs := st.mlocs ++ [l] }, "ok")
+    | _, _, _, _ => (st, "bad-op")
+  | ["mon-eval", file] =>
+    match fromHex file with
+    | some f =>
+      let cs := st.mcalls
+      let ls := st.mlocs
+      (st, s!"mon {b2s (wf false cs)} {b2s (wfS false cs)} {b2s (readbackOk f (files [] cs) ls)} " ++
+           s!"{b2s (holdsAll f (claimsOf false [] cs) ls)} {b2s (fragBlocksOk f cs ls)} {b2s (shareCompleteOk [] [] cs ls)}")
+    | none => (st, "bad-op")
   | ["bw-init", pre, wf] =>
     match fromHex pre, wf.toNat? with
     | some p, some f => ({ st with bw := init p f }, "ok")
